@@ -14,7 +14,7 @@ Sel == 0 .. 2
 Inst == { <<"sort", 0, 0>>, <<"io", 0, 0>>, <<"io_sorted", 0, 0>>, <<"translate_origin", 0, 0>>, <<"normalize", 0, 0>>, <<"radius_reset", 0, 0>>,
           <<"translate", 0, 0>>, <<"scale", 0, 0>>, <<"scale", 1, 0>>, <<"rot90z", 0, 0>>, <<"rotate", 1, 0>>, <<"smooth", 3, 0>>, <<"smooth", 5, 0>>,
           <<"resample", 0, 0>>, <<"resample", 1, 0>>, <<"cut_type", 2, 0>>, <<"cut_type", 3, 0>>, <<"cut_order", 1, 0>>, <<"cut_order", 2, 0>>,
-          <<"cut_shorttip", 1, 0>>, <<"compose", 0, 0>> }
+          <<"cut_shorttip", 1, 0>>, <<"compose", 0, 0>>, <<"branch_tree", 0, 0>> }
         \cup { <<"subtree", a, 0>> : a \in Sel } \cup { <<"remove", a, b>> : a \in Sel, b \in Sel } \cup { <<"cut_enter", a, 0>> : a \in 1 .. 2 }
         \cup { <<"redirect_sorted", a, 0>> : a \in Sel } \cup { <<"redirect_unsorted", a, 0>> : a \in Sel }
         \cup { <<"cat", a, b>> : a \in Sel, b \in 0 .. 1 } \cup { <<"cat_notranslate", a, 0>> : a \in 0 .. 1 }
